@@ -115,6 +115,22 @@ def render_forwarding(o, i, fl, placement):
         L += ['def inner(%s):' % absig.render_params(i), '    return locals()',
               'def w0(%s):' % absig.render_params(hp + list(o)), '    return ' + call_text('h', o, fl),
               'w = functools.partial(w0, inner)', '']
+    elif placement == 'auto_hint':
+        # behind a modifiers decorator: discovery runs on the wrapped function's source with the rewritten signature (the hint protocol)
+        L += ['from sigtools import modifiers', 'def inner(%s):' % absig.render_params(i), '    return locals()',
+              '@modifiers.kwoargs(%r)' % 'hq', 'def w(%s):' % absig.render_params(hint_params(o)), '    return ' + call_text('inner', o, fl), '']
+    elif placement == 'auto_hint_partial':
+        # a partial object over such a function, the callee bound positionally
+        hp = [{'n': 'h', 'k': 'pok', 'd': False, 'dv': 0, 'an': 0}]
+        L += ['from sigtools import modifiers', 'def inner(%s):' % absig.render_params(i), '    return locals()',
+              '@modifiers.kwoargs(%r)' % 'hq', 'def w0(%s):' % absig.render_params(hp + hint_params(o)), '    return ' + call_text('h', o, fl),
+              'w = functools.partial(w0, inner)', '']
+    elif placement == 'emulate_sigattr':
+        # the wrapper already carries an explicit __signature__ (as modifiers.annotate leaves one) before it is declared with emulate=True
+        L += ['from sigtools import signatures', 'def inner(%s):' % absig.render_params(i), '    return locals()', '',
+              'def with_sig(f):', '    f.__signature__ = signatures.signature(f)', '    return f', '',
+              '@specifiers.forwards_to_function(inner, %s)' % deco_args(fl, True), '@with_sig',
+              'def w(%s):' % absig.render_params(o), '    return ' + call_text('inner', o, fl), '']
     elif placement == 'auto_param_default':
         L += ['def inner(%s):' % absig.render_params(i), '    return locals()',
               'def w0(first, h=inner, %s):' % absig.render_params([p for p in o if p['k'] in ('var', 'kwo', 'vkw')]), '    return ' + call_text('h', o, fl),
@@ -131,6 +147,18 @@ def render_forwarding(o, i, fl, placement):
     else:
         raise ValueError(placement)
     return '\n'.join(L)
+
+
+def hint_params(o):
+    """the outer parameters plus a defaulted regular parameter hq (made keyword-only by the modifier) after the positional ones"""
+    hq = {'n': 'hq', 'k': 'pok', 'd': True, 'dv': 9, 'an': 0}
+    return [p for p in o if p['k'] in ('po', 'pok')] + [hq] + [p for p in o if p['k'] not in ('po', 'pok')]
+
+
+def hint_effective(o):
+    """what the decorated wrapper advertises: hq keyword-only, after the native keyword-only parameters"""
+    hq = {'n': 'hq', 'k': 'kwo', 'd': True, 'dv': 9, 'an': 0}
+    return [p for p in o if p['k'] != 'vkw'] + [hq] + [p for p in o if p['k'] == 'vkw']
 
 
 def with_self(ps):
